@@ -51,7 +51,7 @@ var c12Positions = []struct {
 }
 
 func init() {
-	floor := []string{"item.async", "item.async-union", "item.async-cte", "item.async-multidim", "item.once-multidim", "item.async-derived", "item.cte-dual-star", "item.fuse-dual-star", "item.fuse", "item.fuse-alias", "item.setvar", "item.async-derived-object", "reexec.after-fault", "group.mixed-keys", "rich", "parjoin"}
+	floor := []string{"item.async", "item.async-union", "item.async-cte", "item.async-multidim", "item.once-multidim", "item.async-derived", "item.cte-dual-star", "item.fuse-dual-star", "item.fuse", "item.fuse-alias", "item.setvar", "item.async-derived-object", "item.async-join-operand", "item.cte-by-name", "item.fuse-async", "reexec.after-fault", "group.mixed-keys", "rich", "parjoin"}
 	for _, f := range c12Forms {
 		floor = append(floor, "form."+f.name)
 	}
@@ -225,12 +225,22 @@ func c12Matrix(c *fw.Case) {
 		d = newRichDoc(c)
 	}
 	nf, np := len(c12Forms), len(c12Positions)
-	cell := c.Idx % (nf*np + 30)
+	cell := c.Idx % (nf*np + 40)
 	if cell >= nf*np {
 		// special select items
 		var sql string
 		var feat string
-		switch (cell - nf*np) % 15 {
+		switch (cell - nf*np) % 20 {
+		case 17:
+			sql, feat = "WITH c AS (SELECT rid, n1 FROM t1) SELECT c FROM dual", "item.cte-by-name"
+		case 18:
+			sql, feat = "WITH c AS (SELECT rid FROM t1), d AS (SELECT 1 AS x FROM dual) SELECT c AS v, ARRAY(d, c) AS a, FUSE(d) FROM dual", "item.cte-by-name"
+		case 19:
+			sql, feat = "SELECT rid, FUSE((SELECT ASYNC.VBG(n1) AS z, AWAIT(ASYNC.VBG(s1)) AS zz FROM dual)), FUSE((SELECT ASYNC.VBG(rid) AS y FROM dual)) AS p FROM t1", "item.fuse-async"
+		case 15:
+			sql, feat = "SELECT * FROM (SELECT rid, ASYNC.VBG(n1) AS y FROM t1) l JOIN t1 r ON l.rid = r.rid", "item.async-join-operand"
+		case 16:
+			sql, feat = "SELECT l AS item, r.z FROM t1 x LEFT JOIN (SELECT rid, AWAIT(ASYNC.VBG(s1)) AS z, ASYNC.VBG(n1) AS y FROM t1) r ON x.rid = r.rid JOIN (SELECT rid, ASYNC.VBG(n2) AS w FROM t1) l ON l.rid = x.rid", "item.async-join-operand"
 		case 12:
 			sql, feat = "SELECT q, VFAIL(q.rid) AS c FROM (SELECT rid, ASYNC.VBG(n1) AS y FROM t1) q", "item.async-derived-object"
 		case 13:
@@ -262,7 +272,7 @@ func c12Matrix(c *fw.Case) {
 		default:
 			sql, feat = "SELECT rid, SETVAR('k', n1), GETVAR('k') AS g FROM t1", "item.setvar"
 		}
-		c12Judge(c, d, sql, false, []string{feat}, c12Opts)
+		c12Judge(c, d, sql, strings.Contains(sql, "JOIN"), []string{feat}, c12Opts)
 		return
 	}
 	f, p := c12Forms[cell%nf], c12Positions[cell/nf]
